@@ -394,3 +394,56 @@ func staticCfg(name string, min, max time.Duration) config.Interface {
 }
 
 func isAllNodes(a netip.Addr) bool { return a == netip.IPv6LinkLocalAllNodes() }
+
+// monWorld: one monitoring interface with the real Monitor + real Dialer.
+type monWorld struct {
+	*world
+	mon    *Monitor
+	watchC chan netstate.Change
+	ctx    context.Context
+	cancel context.CancelFunc
+
+	runMu  sync.Mutex
+	runRet bool
+	runErr error
+}
+
+func newMonWorld(name string, watch bool) *monWorld {
+	ifi := config.Interface{Name: name, Monitor: true}
+	m := &monWorld{world: newWorld([]config.Interface{ifi}, false)}
+	if watch {
+		m.watchC = make(chan netstate.Change, 8)
+	}
+	d := system.NewDialer(name, m.st, system.Monitor, log.New(m.logb, "", 0))
+	var wc <-chan netstate.Change
+	if m.watchC != nil {
+		wc = m.watchC
+	}
+	m.mon = NewMonitor(m.cctx, name, d, wc, false)
+	m.ctx, m.cancel = context.WithCancel(context.Background())
+	return m
+}
+
+func (m *monWorld) run() {
+	err := m.mon.Run(m.ctx)
+	m.runMu.Lock()
+	m.runRet, m.runErr = true, err
+	m.runMu.Unlock()
+	vsched.Obs("run-returned", "%v", err)
+}
+
+func (m *monWorld) returned() (bool, error) {
+	m.runMu.Lock()
+	defer m.runMu.Unlock()
+	return m.runRet, m.runErr
+}
+
+// sample returns the value of one series sample ("" labels key as metricslite builds it).
+func sample(ss map[string]metricslite.Series, name, key string) (float64, bool) {
+	s, ok := ss[name]
+	if !ok {
+		return 0, false
+	}
+	v, ok := s.Samples[key]
+	return v, ok
+}
